@@ -386,6 +386,13 @@ class SeqV:
         return 'SeqV(%s)' % self.t
 
 
+class StarPack:
+    """`*pack` / `**pack` of a symbolic argument tuple / keyword dict, forwarded whole."""
+
+    def __init__(self, v):
+        self.v = v
+
+
 class IterV:
     """A Python iterator over a concrete list of values."""
 
@@ -519,6 +526,14 @@ class Interp:
         args = list(args)
         kwargs = dict(kwargs)
         npos = len(params)
+        kwpack = kwargs.pop('**', None)
+        packs = [x for x in args if isinstance(x, StarPack)]
+        if packs:
+            if len(packs) > 1 or not isinstance(args[-1], StarPack) or len(args) - 1 != npos or a.vararg is None:
+                raise Unsupported('forwarding *args of symbolic length into named parameters')
+            pack = args.pop()
+        else:
+            pack = None
         for i, p in enumerate(params):
             if i < len(args):
                 loc[p] = args[i]
@@ -528,6 +543,16 @@ class Interp:
             loc[a.vararg.arg] = tuple(args[npos:])
         elif a.vararg is not None:
             loc[a.vararg.arg] = ()
+        if pack is not None:
+            loc[a.vararg.arg] = pack.v
+        if kwpack is not None:
+            if a.kwarg is None or kwargs:
+                raise Unsupported('forwarding **kwargs of symbolic size into named parameters')
+            loc[a.kwarg.arg] = kwpack.v
+            kwargs = {}
+            kw_bound = True
+        else:
+            kw_bound = False
         for k in list(kwargs):
             if k in params or k in [p.arg for p in a.kwonlyargs]:
                 if k in loc:
@@ -537,7 +562,7 @@ class Interp:
             if a.kwarg is None:
                 raise_py('TypeError', 'unexpected keyword argument %s' % sorted(kwargs)[0])
             loc[a.kwarg.arg] = kwargs
-        elif a.kwarg is not None:
+        elif a.kwarg is not None and not kw_bound:
             loc[a.kwarg.arg] = {}
         nd = len(fv.defaults)
         for i, p in enumerate(params):
@@ -575,6 +600,9 @@ class Interp:
         if isinstance(f, PyType):
             return self.env.call_type(self, f, list(args), dict(kwargs))
         if isinstance(f, Obj):
+            r = self.env.call_other(self, f, list(args), dict(kwargs))
+            if r is not NotImplemented:
+                return r
             callm = self.getattr(f, '__call__')
             return self.call(callm, args, kwargs, node)
         if isinstance(f, ClassMethodVal):
@@ -1038,6 +1066,8 @@ class Interp:
     def exec_loop(self, s, fr, iterable):
         key = self.loop_key(s, fr)
         inv = self.loop_invariants.get(key) if key else None
+        if inv is not None and isinstance(s, ast.For) and isinstance(iterable, (tuple, list, dict)):
+            inv = None      # concrete iterable: iterate it, no contract needed
         if inv is not None:
             return inv.run(self, s, fr, iterable)
         if isinstance(s, ast.For):
@@ -1254,13 +1284,21 @@ class Interp:
         args = []
         for a in e.args:
             if isinstance(a, ast.Starred):
-                args.extend(self.env.iterate_strict(self, self.eval(a.value, fr)))
+                sv = self.eval(a.value, fr)
+                items = self.env.iterate(self, sv)
+                if items is NotImplemented:
+                    args.append(StarPack(sv))
+                else:
+                    args.extend(items)
             else:
                 args.append(self.eval(a, fr))
         kwargs = {}
         for k in e.keywords:
             if k.arg is None:
                 d = self.eval(k.value, fr)
+                if getattr(d, 'is_kwpack', False):
+                    kwargs['**'] = StarPack(d)
+                    continue
                 if not isinstance(d, dict):
                     r = self.env.as_kwargs(self, d)
                     if r is NotImplemented:
